@@ -153,8 +153,11 @@ class CorpusSummary(object):
         # list of words in the utterance
         words = self.separator.tokenize(utterance, 'word')
 
-        # nested list of phones or syllables (per word)
-        phones = [self.separator.tokenize(word, level) for word in words]
+        # nested list of phones or syllables (per word). A syllable is
+        # taken without its inner phone separators, as it appears in a
+        # text prepared at syllable level.
+        phones = [self.separator.tokenize(word, level, keep_boundaries=False)
+                  for word in words]
 
         self.summary.increment('nlines')
         self.summary.increment('nwords', len(words))
